@@ -445,6 +445,14 @@ parse_next_record_header:
                 }
                 /* All other non-zero return value results in reply message.
                  * Either handshake message or alert */
+                if (rc != SSL_ENCODE_RESPONSE && ssl->err == SSL_ALERT_NONE)
+                {
+                    /* The message was refused without an alert having been
+                       chosen (e.g. a truncated body): never drop it
+                       silently. */
+                    ssl->err = (rc == PS_MEM_FAIL) ?
+                        SSL_ALERT_INTERNAL_ERROR : SSL_ALERT_DECODE_ERROR;
+                }
                 goto encodeResponse;
             }
 	    /* If we got a parse return of >= 0 but p did not move forward,
